@@ -492,6 +492,10 @@ def part_bfs(params, tier, acc):
                     ident.append([id(o) for o in opened].index(id(c)))
                 key = repr(model) + repr(ident)
                 new = key not in seen
+                if new and len(seen) % 97 == 5:
+                    acc.sample(dict(history=[list(o) for o in hist],
+                                    model_stack=[list(m) for m in model],
+                                    merged=resolve_all(model)))
                 if new:
                     seen.add(key)
                     acc.states += 1
